@@ -73,6 +73,10 @@ def cases(tier: str, seed: int) -> list[dict]:
         for et in ["TRI3", "QUAD9", "TETRA10", "PRISM6", "SEG3", "TRI10"]:
             out.append({"case": "renumber", "kind": "thermal" if et in ("SEG3", "QUAD9") else "elastic", "et": et,
                         "dim": 1 if et.startswith("SEG") else (2 if et in gm.ET_2D else 3)})
+    # one large system (Ndof^2 > 2^31: linear (row, col) indices no longer fit 32-bit integers)
+    out.append({"case": "large", "et": "QUAD4", "dof_n": 2, "nx": 156})
+    if tier == "thorough":
+        out.append({"case": "large", "et": "TRI3", "dof_n": 3, "nx": 130})
     for i, c in enumerate(out):
         c["id"] = f"C03-{i:05d}-{c['case']}-{c.get('kind', 'probe')}-{c['et']}"
         c["index"] = i
@@ -95,7 +99,7 @@ def _report(ctx: Ctx, mon: AssemblyMonitor, key: str, start: int = 0):
 
 def run_case(case: dict, ctx: Ctx) -> None:
     rng = np.random.default_rng([case["seed"], NUM, case["index"]])
-    {"real": run_real, "probe": run_probe, "renumber": run_renumber}[case["case"]](case, ctx, rng)
+    {"real": run_real, "probe": run_probe, "renumber": run_renumber, "large": run_large}[case["case"]](case, ctx, rng)
 
 
 # ------------------------------------------------------------------------------------------
@@ -313,3 +317,58 @@ def run_renumber(case, ctx, rng):
     ctx.check("renumber-solution", relerr(u2[pd], u1), 1e-8, key + "/solution")
     ctx.check("renumber-neumann", relerr(fn2[pd], fn1), 1e-11, key + "/neumann")
     ctx.describe(f"renumber/{kind}/{et}", True, kind=kind, et=et, Nn=Nn, perm_head=perm[:8])
+
+
+# ------------------------------------------------------------------------------------------
+def run_large(case, ctx, rng):
+    """Large system assembled from random element data; reference = element-loop mat-vec products accumulated with
+    np.add.at on vectors (no dense matrix, no scipy conversion), diagonal and total sum."""
+    from EasyFEA import ElemType, Mesh
+    from EasyFEA.FEM import GroupElemFactory
+
+    et, dof_n, nx = case["et"], case["dof_n"], case["nx"]
+    key = f"C03/large/{et}"
+    ctx.default_key = key
+    xs = np.linspace(0, 1, nx)
+    Xg, Yg = np.meshgrid(xs, xs, indexing="ij")
+    coord = np.c_[Xg.ravel(), Yg.ravel(), np.zeros(nx * nx)]
+    idx = np.arange(nx * nx).reshape(nx, nx)
+    a, b, c, d = idx[:-1, :-1].ravel(), idx[1:, :-1].ravel(), idx[1:, 1:].ravel(), idx[:-1, 1:].ravel()
+    if et == "QUAD4":
+        con = np.c_[a, b, c, d]
+    else:
+        con = np.vstack([np.c_[a, b, c], np.c_[a, c, d]])
+    perm = rng.permutation(nx * nx)  # generic numbering
+    newc = np.empty_like(coord)
+    newc[perm] = coord
+    con = perm[con]
+    with ctx.monitored("no-exception", key + "/raised"):
+        with quiet():
+            mesh = Mesh({ElemType(et): GroupElemFactory.Create(ElemType(et), con, newc)})
+            simu = ProbeSimu(mesh, dof_n)
+            g = mesh.groupElem
+            nl = g.nPe * dof_n
+            Ke = rng.normal(size=(g.Ne, nl, nl))
+            Me = rng.normal(size=(g.Ne, nl, nl))
+            Fe = rng.normal(size=(g.Ne, nl))
+            simu.local = {g: (Ke, None, Me, Fe)}
+            K, C, M, F = simu.Assembly(simu.problemType)
+            K2, _, M2, _ = simu.Assembly(simu.problemType)  # second assembly on the cached map
+    Ndof = mesh.Nn * dof_n
+    gd = (con[:, :, None] * dof_n + np.arange(dof_n)).reshape(g.Ne, nl)  # harness-side dof table
+    worst = 0.0
+    for A, Ae in ((K, Ke), (M, Me), (K2, Ke)):
+        for _ in range(2):
+            x = rng.normal(size=Ndof)
+            y = np.zeros(Ndof)
+            np.add.at(y, gd, np.einsum("eij,ej->ei", Ae, x[gd]))
+            worst = max(worst, relerr(A @ x, y))
+        dref = np.zeros(Ndof)
+        np.add.at(dref, gd, np.einsum("eii->ei", Ae))
+        worst = max(worst, relerr(A.diagonal(), dref), abs(A.sum() - Ae.sum()) / np.abs(Ae).sum())
+    fref = np.zeros(Ndof)
+    np.add.at(fref, gd, Fe)
+    ctx.check("assembly-K", worst, 1e-10, key + "/matvec", Ndof=Ndof)
+    ctx.check("assembly-F", relerr(F.toarray().ravel(), fref), 1e-11, key + "/F")
+    ctx.require("assembly-shapes", K.shape == (Ndof, Ndof) and F.shape == (Ndof, 1), key + "/shape")
+    ctx.describe(f"large/{et}/dof_n={dof_n}", True, et=et, Ndof=Ndof, Ndof_squared_over_2_31=Ndof**2 / 2**31, nnz=int(K.nnz))
